@@ -23,6 +23,7 @@ import json
 import os
 import re
 
+import liveness
 import terms as T
 
 VERIF = os.path.dirname(os.path.dirname(os.path.abspath(__file__)))
@@ -35,12 +36,13 @@ CMP_FLIP = {'Gt': 'Lt', 'Ge': 'Le', 'Lt': 'Gt', 'Le': 'Ge', 'Eq': 'Eq', 'Ne': 'N
 CMP_NEG = {'Lt': 'Ge', 'Le': 'Gt', 'Gt': 'Le', 'Ge': 'Lt', 'Eq': 'Ne', 'Ne': 'Eq'}
 COMMUTATIVE = {'Add', 'Mul', 'BitAnd', 'BitOr', 'BitXor', 'Eq', 'Ne'}
 OPNAME = {'AddUnchecked': 'Add', 'SubUnchecked': 'Sub', 'MulUnchecked': 'Mul', 'ShlUnchecked': 'Shl', 'ShrUnchecked': 'Shr'}
+TRUNC_MASK = {0xFF: 'u8', 0xFFFF: 'u16', 0xFFFFFFFF: 'u32'}
 UNSIGNED = ('usize', 'u8', 'u16', 'u32', 'u64', 'u128')
 
 
-def policy():
+def policy(shallow=False):
     return T.Policy(inline=True, max_depth=10, inline_core=True, subst_types=True, pure_ref_values=True, typed_floats=True, record_ref_values=True,
-                    pure_extra=('core::slice::<impl [T]>::len', 'core::slice::<impl [T]>::is_empty'))
+                    pure_extra=('core::slice::<impl [T]>::len', 'core::slice::<impl [T]>::is_empty'), own_body_only=shallow)
 
 
 # ------------------------------------------------------------------ term normalisation
@@ -95,6 +97,13 @@ def norm(t):
             base, a, b = CMP_FLIP[base], b, a       # a > b  ==  b < a  (also for NaN: both false)
         if base in COMMUTATIVE and repr(b) < repr(a):
             a, b = b, a                              # IEEE addition / multiplication are commutative as well
+        if base == 'BitAnd':
+            # (x & c1) & c2  ==  x & (c1 & c2)
+            for u, v in ((a, b), (b, a)):
+                if u[0] == 'int' and v[0] == 'op' and v[1] == 'BitAnd' and len(v) == 4:
+                    for w, z in ((v[2], v[3]), (v[3], v[2])):
+                        if w[0] == 'int':
+                            return norm(('op', 'BitAnd', z, ('int', u[1] & w[1]) + tuple(u[2:])))
         if not fl and a[0] == 'int' and b[0] == 'int':
             # constant folding (after the equalities of a path pair have been substituted)
             x, y = a[1], b[1]
@@ -114,6 +123,28 @@ def norm(t):
         if x[0] == 'bool':
             return ('bool', not x[1])
         return ('un', 'Not', x)
+    if h == 'const' and len(t) == 3 and isinstance(t[1], str) and t[1].startswith('"assertion failed: '):
+        return ('const', '"assertion failed"', t[2])        # the stringified condition of an `assert!` names variables; it is no behaviour
+    if h == 'agg' and len(t) == 3 and isinstance(t[1], tuple) and t[1] and t[1][0] == 'adt' and len(t[1]) > 2 and t[1][2] == 0 and len(t[2]) > 1:
+        # struct-update syntax: `S { a: v, ..x }` builds S from x's other fields -- the value `x` with a := v
+        comps = tuple(norm(c) for c in t[2])
+        bases = {c[1] for i, c in enumerate(comps) if isinstance(c, tuple) and len(c) == 3 and c[0] == 'field' and c[2] == i}
+        if len(bases) == 1:
+            x = next(iter(bases))
+            ups = tuple(sorted((((('f', i),), c) for i, c in enumerate(comps) if c != ('field', x, i)), key=repr))
+            if len(ups) < len(comps):
+                return ('upd', x, ups) if ups else x
+        return ('agg', norm(t[1]), comps)
+    if h == 'cast' and len(t) == 4:
+        x, ty = norm(t[2]), norm(t[3])
+        if t[1] == 'IntToInt' and x[0] == 'op' and x[1] == 'BitAnd' and len(x) == 4:
+            # (x & 0xFF) as W  ==  (x as u8) as W   (two's complement truncation), likewise for 16 and 32 bits
+            for u, v in ((x[2], x[3]), (x[3], x[2])):
+                if u[0] == 'int' and u[1] in TRUNC_MASK:
+                    return norm(('cast', 'IntToInt', ('cast', 'IntToInt', v, TRUNC_MASK[u[1]]), t[3]))
+        if isinstance(x, tuple) and len(x) == 4 and x[0] == 'cast' and x[3] == ty:
+            return x        # a cast of a value that already has the target type (the value of a cast to it) is that value
+        return ('cast', t[1], x, ty)
     if h == 'app' and len(t) == 4 and len(t[2]) == 1 and isinstance(t[1], str) and (
             (t[1] == 'core::clone::Clone::clone' and t[3] and isinstance(t[3][0], str)
              and (t[3][0] in COPY_TYPES or t[3][0].startswith(('&', 'core::marker::PhantomData<', '*const ', '*mut '))) and not t[3][0].startswith('&mut'))
@@ -149,11 +180,12 @@ CONV_APPS = {'dasp_sample::Sample::to_sample': 'to', 'dasp_sample::conv::ToSampl
 class Namer:
     """first-occurrence renaming of event indices, frames, loop ids, havoc ids"""
 
-    def __init__(self, evmap):
+    def __init__(self, evmap, ranks=None):
         self.evmap = evmap      # raw event index -> canonical index (or None if the event was dropped)
         self.frames = {}
         self.hv = {}
         self.bbs = {}
+        self.ranks = ranks or {}    # (header block, havoc id) -> {local: position among the locals live at that header}
 
     def frame(self, f):
         if f not in self.frames:
@@ -177,6 +209,9 @@ class Namer:
             key = (t[1], t[2])
             if key not in self.hv:
                 self.hv[key] = len(self.hv)
+            if h == 'phi' and len(t) == 4 and isinstance(t[3], int):
+                r = self.ranks.get(key)
+                return (h, self.hv[key], r.get(t[3], ('x', t[3])) if r is not None else t[3])
             return (h, self.hv[key]) + tuple(self.rn(x) for x in t[3:])
         return tuple(self.rn(x) for x in t)
 
@@ -270,7 +305,7 @@ def callee_fingerprint(facts, callee, root=None):
     key = (id(facts), b['hash'])
     if key not in _FP:
         _FP[key] = hashlib.sha256(json.dumps(_strip_lines(b['blocks']), sort_keys=True).encode()).hexdigest()[:12]
-    return _FP[key]
+    return ('#fp', b['path'], _FP[key])
 
 
 def expand_closures(facts, p, t, table, depth, evmap=None):
@@ -310,7 +345,7 @@ def expand_closures(facts, p, t, table, depth, evmap=None):
             cid = len(table['ids'])
             table['ids'][key] = cid
             table['paths'].append(None)
-            eng = T.Engine(facts, policy(), max_paths=120)
+            eng = T.Engine(facts, policy(table.get('shallow', False)), max_paths=120)
             store = dict(p['store'])
             tys = None
             if is_clo:
@@ -319,6 +354,7 @@ def expand_closures(facts, p, t, table, depth, evmap=None):
                 envty = facts.ty(body['locals'][1])
                 a0 = ('ref', envloc) if envty.get('k') == 'ref' else t
                 args = [a0] + [('carg', i) for i in range(1, body['argc'])]
+                tys = (p.get('tys') or {}).get(('closure', h)) or None
             else:
                 args = [('carg', i) for i in range(1, body['argc'] + 1)]
                 gens = [g for g in (body.get('generics') or []) if not g.startswith("'")]
@@ -344,6 +380,27 @@ def expand_closures(facts, p, t, table, depth, evmap=None):
             return ('agg', ('closure', t[1][1], fp), tuple(expand_closures(facts, p, x, table, depth, evmap) for x in t[2]))
         return ('fnitem', t[1], fp, t[3])
     return tuple(expand_closures(facts, p, x, table, depth, evmap) for x in t)
+
+
+_RANKS = {}
+
+
+def loop_ranks(facts, fn, header):
+    """{local: rank} for the locals a loop assigns that are live at its header (analysis/liveness.py); None if the body
+    is unknown.  Temporaries that are dead at the header cannot carry anything from one iteration to the next."""
+    key = (id(facts), fn, header)
+    if key not in _RANKS:
+        body = facts.body(fn)
+        if body is None:
+            _RANKS[key] = None
+        else:
+            info = T.Engine(facts).loop_info(body).get(header)
+            if info is None:
+                _RANKS[key] = None
+            else:
+                live = liveness.live_at(body, header)
+                _RANKS[key] = {l: i for i, l in enumerate(sorted(l for l in info['assigned'] if l in live))}
+    return _RANKS[key]
 
 
 def canon_path(facts, p, table, depth=0, skip=0, outer=None):
@@ -379,8 +436,19 @@ def canon_path(facts, p, table, depth=0, skip=0, outer=None):
         if v[0] == 'bool' and d[0] == 'un' and d[1] == 'Not':
             d, v = d[2], ('bool', not v[1])
         conds.append((d, v))
-    nm = Namer(evmap)
+    ranks = {}
+    for e in p['events']:
+        if e['kind'] == 'loop-enter':
+            ranks[(e['header'], e['hv'])] = loop_ranks(facts, e['fn'], e['header'])
+    nm = Namer(evmap, ranks)
     evs = []
+
+    def carried(e, d):
+        """the loop-carried locals that matter: those live at the header, named by their position among them"""
+        r = loop_ranks(facts, e['fn'], e['header'])
+        if r is None:
+            return sorted((str(k2), X(v2)) for k2, v2 in d.items())
+        return sorted((r[k2], X(v2)) for k2, v2 in d.items() if k2 in r)
 
     def X(t):
         return expand_closures(facts, p, t, table, depth, evmap)
@@ -393,10 +461,10 @@ def canon_path(facts, p, table, depth=0, skip=0, outer=None):
         elif kind == 'assert':
             evs.append(('assert', nm.rn(norm(X(e['cond']))), e['expected'], e['msg']))
         elif kind == 'loop-enter':
-            evs.append(('loop-enter', nm.rn(norm(tuple(sorted((str(k2), X(v2)) for k2, v2 in e.get('before', {}).items())))),
+            evs.append(('loop-enter', nm.rn(norm(tuple(carried(e, e.get('before', {}))))),
                         nm.rn(norm(tuple(sorted(((loc, X(v2)) for loc, v2 in (e.get('heap_before') or {}).items()), key=repr))))))
         elif kind == 'loop-back':
-            evs.append(('loop-back', nm.rn(norm(tuple(sorted((str(k2), X(v2)) for k2, v2 in e.get('carried', {}).items()))))))
+            evs.append(('loop-back', nm.rn(norm(tuple(carried(e, e.get('carried', {})))))))
         else:
             evs.append((kind, nm.rn(norm(X(tuple(e.get('args', ())))))))
     # final writes: aggregate assignments are split into per-field writes; each write carries the value the location
@@ -435,7 +503,8 @@ def type_context(facts, body):
         if k == 'adt':
             a = facts.adts.get(t['path'])
             if a is not None:
-                h.update(json.dumps([a['path'], [[v['name'], [[f['name'], f['ty']] for f in v['fields']]] for v in a['variants']]]).encode())
+                # (fields by position and type: terms address them by index, their names carry no behaviour)
+                h.update(json.dumps([a['path'], [[v['name'], [f['ty'] for f in v['fields']]] for v in a['variants']]]).encode())
                 for v in a['variants']:
                     for f in v['fields']:
                         visit(f['ty'], depth + 1)
@@ -452,18 +521,20 @@ def type_context(facts, body):
     return h.hexdigest()[:16]
 
 
-def summarize(facts, fn, max_paths=300):
+def summarize(facts, fn, max_paths=300, shallow=False):
+    """canonical summary of `fn`; shallow: of its own body only -- calls of other workspace functions stay events (with the
+    callee's fingerprint), for the compositional comparison of ownership.py"""
     body = facts.body(fn)
     if body is None:
         return None
-    eng = T.Engine(facts, policy(), max_paths=max_paths)
+    eng = T.Engine(facts, policy(shallow), max_paths=max_paths)
     try:
         paths = eng.summarize(body)
     except (T.TooComplex, RecursionError, KeyError, IndexError, TypeError, AssertionError):
         return None
     ctx = hashlib.sha256()
     ctx.update(type_context(facts, body).encode())
-    table = {'ids': {}, 'paths': [], 'root': body['hash']}
+    table = {'ids': {}, 'paths': [], 'root': body['hash'], 'shallow': shallow}
     cps = [canon_path(facts, p, table) for p in paths]
     return {'ctx': ctx.hexdigest()[:16], 'paths': cps, 'closures': table['paths']}
 
@@ -567,13 +638,19 @@ def behaviour(p):
 class Cmp:
     """comparison of two summaries; closure references are compared by the equivalence of the bodies they denote"""
 
-    def __init__(self, ref, cur):
+    def __init__(self, ref, cur, trust_callees=False):
         self.ta = ref.get('closures') or []
         self.tb = cur.get('closures') or []
         self.memo = {}
+        self.trust_callees = trust_callees
 
     def same(self, a, b):
         if isinstance(a, tuple) and isinstance(b, tuple):
+            if len(a) == 3 and len(b) == 3 and a[0] == '#fp' and b[0] == '#fp':
+                # an opaque call to a workspace function: the same effect if the callee's body is the same -- or, when the
+                # caller vouches for the callees separately (ownership.py: every function is either examined by a rule or
+                # compared with the reference itself), if it is the same function
+                return a[1] == b[1] and (a[2] == b[2] or self.trust_callees)
             if len(a) == 2 and len(b) == 2 and a[0] == '#clo' and b[0] == '#clo':
                 key = (a[1], b[1])
                 if key not in self.memo:
@@ -601,13 +678,13 @@ class Cmp:
         return True, None
 
 
-def equivalent(ref, cur):
+def equivalent(ref, cur, trust_callees=False):
     """(True, None) or (False, reason)"""
     if ref is None or cur is None:
         return False, 'no summary'
     if ref['ctx'] != cur['ctx']:
         return False, 'the types this function works on changed'
-    return Cmp(ref, cur).paths_equivalent(ref['paths'], cur['paths'])
+    return Cmp(ref, cur, trust_callees).paths_equivalent(ref['paths'], cur['paths'])
 
 
 # ------------------------------------------------------------------ reference store
